@@ -190,6 +190,12 @@ def run(c, tier, what):
                 report("ref", i, "verified checker: emitted family is not a minimum cycle basis (total %s, optimum %s)" % (f["TOTAL"][0], f["OPT"][0]), True, {"ref": r})
     elif not refok:
         c.notes.append("verified checker (RefModel) not available in this run")
+    # ---- acceptance level: the tree-based variants' runs replayed through TreesModel ---------------
+    try:
+        import trees_common
+        trees_common.run_trees(c, tier, what, lines=lines, io=io)
+    except ImportError:
+        c.notes.append("trees acceptance model not available")
     # ---- E-level: bidirectional_signed_dijkstra vs model ----------------------------------------
     bio = lib.run_lines([exe], bcases)
     bmo = lib.run_model("bidir", [" ".join(b.split()[2:]) for b in bcases], group="sva")
@@ -207,6 +213,10 @@ def run(c, tier, what):
 
 def replay_case(pid, path, what):
     r = json.load(open(path))
+    if r.get("component") == "trees":
+        import trees_common
+        r["_path"] = path
+        return trees_common.replay_case(pid, r, what)
     lib.ensure_model("sva")
     exe, err = lib.build_cpp(name="c01", srcs=["c01.cpp"], libs=LIBS)
     line = r["case"]
